@@ -4,7 +4,7 @@ import sys
 
 import yaml
 from yaml.nodes import ScalarNode, SequenceNode, MappingNode
-from symex.hlib import Job, reach, fail, exc_sig, not_a_finding, pick, CONCRETE
+from symex.hlib import Job, reach, fail, exc_sig, not_a_finding, pick, CONCRETE, no_library_imports
 from spec import yaml11_types as spec
 from symex import standins, pymodels
 
@@ -71,6 +71,7 @@ def _mk(tag, kind):
     return MappingNode(tag, [])
 
 
+@no_library_imports(P)
 def dispatch(tag: str, kind: int, lc: int) -> str:
     """Every tag x node kind x the four safe/base classes: rejected unless core."""
     cls = pick(lc, LOADERS)
@@ -100,6 +101,7 @@ def dispatch(tag: str, kind: int, lc: int) -> str:
     return 'ok'
 
 
+@no_library_imports(P)
 def core_value(t: int, v: str) -> str:
     """Core scalar constructors over all short values: result in the universe or a YAML error."""
     kind = pick(t, SCALAR_KINDS)
@@ -161,6 +163,7 @@ def _place(ctx, x):
     return m([(s('k'), x), (s('k2'), x)])
 
 
+@no_library_imports(P)
 def context(tag: str, kind: int, ctx: int) -> str:
     loader = yaml.SafeLoader('')
     x = _mk(tag, kind)
@@ -220,6 +223,7 @@ class _StubbedSafe:
         return False
 
 
+@no_library_imports(P)
 def api(tag: str, kind: int, which: int) -> str:
     x = _mk(tag, kind)
     with _StubbedSafe(x) as st:
